@@ -431,6 +431,53 @@ class World:
         self.emit(op, {"err": err_name(err)})
         return h, err
 
+    def enc_rdf(self, c):
+        """writer channel: the quads the implementation's PROV-O writer puts into its ConjunctiveGraph"""
+        from . import rdfgraph
+        from prov.serializers.provrdf import ProvRDFSerializer
+        try:
+            doc = self.conts[c]
+            container = ProvRDFSerializer(doc).encode_document(doc)
+            out = {"graphs": rdfgraph.canon_quads(rdfgraph.quads_of(container))}
+        except Exception as e:  # noqa
+            out = {"graphs": None, "err": err_name(e)}
+        self.emit({"op": "enc_rdf", "c": c}, out)
+        return out
+
+    def dec_rdf(self, text=None, container=None, rdf_format="trig"):
+        """reader channel: one rdflib graph to the implementation's reader and, in the order rdflib iterates it, to the model's"""
+        from . import rdfgraph
+        from rdflib.graph import ConjunctiveGraph
+        from prov.serializers.provrdf import ProvRDFSerializer
+        import logging
+        import warnings
+        if container is None:
+            container = ConjunctiveGraph()
+            with warnings.catch_warnings():
+                warnings.simplefilter("ignore")
+                container.parse(data=text, format=rdf_format)
+        op = dict(rdfgraph.reader_view(container), op="dec_rdf")
+        ser = ProvRDFSerializer()
+        d = ProvDocument()
+        ser.document = d
+        logging.disable(logging.CRITICAL)
+        try:
+            with warnings.catch_warnings():
+                warnings.simplefilter("ignore")
+                ser.decode_document(container, d)
+            err = None
+        except Exception as e:  # noqa
+            err = e
+            d = None
+        finally:
+            logging.disable(logging.NOTSET)
+        h = None
+        if d is not None:
+            h = self.bind_cont(d)
+            op["as"] = h
+        self.emit(op, {"err": err_name(err)})
+        return h, err
+
     def enc_xml(self, c, force_types=False):
         """writer channel: infoset of the PROV-XML text the implementation emits"""
         from . import xmltree
@@ -622,6 +669,15 @@ def diff_outputs(ops, impl_outs, model_outs):
             b = {"tree": xmltree.canon_with_bundle_ns(b["tree"])}
             if a.get("tree") is None:
                 continue      # the implementation's writer raised (name not expressible in XML): not comparable
+        if ops[i]["op"] == "enc_rdf":
+            if b.get("graphs") is None or a.get("graphs") is None:
+                DIVERGENCES["rdf-writer-outside-model"] = DIVERGENCES.get("rdf-writer-outside-model", 0) + 1
+                continue          # floats / untyped literals (model) or a writer crash (judged by the oracle)
+            from . import rdfgraph
+            b = {"graphs": rdfgraph.canon_quads(b["graphs"])}
+        if ops[i]["op"] == "dec_rdf" and (b.get("err") or "").startswith("unsupported:"):
+            DIVERGENCES["rdf-reader-outside-model"] = DIVERGENCES.get("rdf-reader-outside-model", 0) + 1
+            return None           # the document the model did not build cannot be observed any further
         if ops[i]["op"] == "enc_json":
             if b.get("unspecified"):
                 continue          # outside the model's envelope (counted by the caller)
